@@ -37,7 +37,12 @@ func ctrHunt(o *hlib.Out, rng *hlib.Rng) {
 	}
 	jobs := []job{
 		{8, hlib.N(12, 96), func(i int) int { return 16*(2+rng.Intn(39)) + rng.Pick(0, 0, 1, 15)*rng.Intn(2) }},
-		{16, hlib.N(8, 64), func(i int) int { return 1024 + rng.Intn(3073) }},
+		{16, hlib.N(10, 80), func(i int) int {
+			if i%2 == 1 { // several 4 KiB chunks, so that the wrap can sit before / on / after a chunk boundary
+				return 4097 + rng.Intn(16384)
+			}
+			return 1024 + rng.Intn(3073)
+		}},
 		{24, hlib.N(3, 24), func(i int) int {
 			switch i % 3 {
 			case 0:
